@@ -134,7 +134,7 @@ func zzCfgServerNameForVerification() {
 	// SNI: flight1Generate / flight3Generate offer server_name iff len(cfg.ServerName) > 0, with that value
 	if kind == 1 || kind == 2 {
 		zzsymAssert(hc.ServerName == "", "cfg_no_sni_for_ip_literal")
-	} else if kind != 5 { // whether a name too long for DNS is offered as SNI is not the property's business
+	} else if kind < 4 { // whether a name that is no valid DNS host name (over-long, over-long label) is offered as SNI is not the property's business
 		zzsymAssert(hc.ServerName == name, "cfg_sni_is_configured_dns_name")
 	}
 
